@@ -293,7 +293,10 @@ def search(ctx, reason):
             ctx.violation("%s; failing input: %s on %s engine -> %s" % (reason, m["expr"], m["engine"], m["outcome"]),
                           dict(kind="comparison", reason=reason, **m, record=repr(r)))
             return True
-    return False
+    helper_checks(ctx)
+    if not ctx.violations:
+        stream_checks(ctx, kf)
+    return bool(ctx.violations)
 
 
 def run(ctx):
@@ -333,6 +336,12 @@ def run(ctx):
                           dict(kind="comparison", **m, record=repr(r)))
     # 2. model = implementation on every case
     if failing and not reported:
+        # the correspondence broke: look for a concrete failing input among the helper and stream checks first
+        helper_checks(ctx)
+        if not ctx.violations:
+            stream_checks(ctx, kf)
+        if ctx.violations:
+            return
         m = metas[failing[0]]
         ctx.violation("model/Cmp.v and the implementation disagree on %d of %d cases, first: %s (%s engine) impl=%s; "
                       "the property itself holds on that case" % (len(failing), len(cases), m["expr"], m["engine"], m["outcome"]),
